@@ -47,6 +47,8 @@ def main(argv=None):
             run_liveness(prop, mod, res)
             from .liveness import run_seeded
             run_seeded(prop, mod, res)
+            from .liveness import run_benign
+            run_benign(prop, mod, res)
     except AnalysisError as exc:
         print(f'ANALYSIS-ERROR property={prop} {exc}')
         return 2
